@@ -276,9 +276,19 @@ char *__wrap_strdup(const char *s) {
     if (hx_in_lib == 1 && fault_now()) return NULL;
     char *p = __real_strdup(s); track_add(p, p ? strlen(p) + 1 : 0); return p;
 }
+/* zlib keeps its state in memory of its own: the streams the library opened and did not close yet are counted (part of "memory held") */
+int hx_zlive = 0;
+int __real_inflateEnd(z_streamp);
 int __wrap_inflateInit2_(z_streamp strm, int wb, const char *ver, int sz) {
     if (hx_in_lib == 1 && fault_now()) return Z_MEM_ERROR;
-    return __real_inflateInit2_(strm, wb, ver, sz);
+    int rc = __real_inflateInit2_(strm, wb, ver, sz);
+    if (rc == Z_OK && hx_in_lib) hx_zlive++;
+    return rc;
+}
+int __wrap_inflateEnd(z_streamp strm) {
+    int rc = __real_inflateEnd(strm);
+    if (rc == Z_OK && hx_in_lib) hx_zlive--;
+    return rc;
 }
 
 /* ------------------------------------------------------------------ work meter (cost flavour) ----------- */
